@@ -24,4 +24,12 @@ package yubiagent
 //@   flag logged
 //@   requires c != nil
 //@   modifies hacc(pl(c))
-//@   ensures true
+//@   let n0 = old(calls(Writer.Write))
+//@   ensures [oversize-refused] len(data) > 16777216 ==> err != nil && calls(Writer.Write) == n0
+//@   ensures [prefix-then-body] (len(data) <= 16777216 && err == nil) ==> (calls(Writer.Write) == n0 + 2 &&
+//@     arg(Writer.Write, n0, 0) == c && arg(Writer.Write, n0 + 1, 0) == c &&
+//@     len(arg(Writer.Write, n0, 1)) == 4 &&
+//@     be32(argc(Writer.Write, n0, 1), off(arg(Writer.Write, n0, 1))) == len(data) &&
+//@     arg(Writer.Write, n0 + 1, 1) == data && argc(Writer.Write, n0 + 1, 1) == elems(data))
+//@   ensures [errors-surface] (len(data) <= 16777216 && err == nil) ==> (ret(Writer.Write, n0, 1) == nil && ret(Writer.Write, n0 + 1, 1) == nil)
+//@   ensures len(data) <= 16777216 ==> calls(Writer.Write) >= n0 + 1 && calls(Writer.Write) <= n0 + 2
